@@ -6,6 +6,7 @@ R-C08.2  row-shape agreement: CREATE TABLE columns / INSERT tuple / SELECT list 
 R-C08.3  a call trace round-trips through CallTraceRow with absent return/yield kept distinct from NoneType
 R-C08.4  canonical text: every json.dumps in the codec sorts keys
 R-C08.5  hidden builtin table: every entry is reachable by its key and decodes to the type it names
+R-C08.10 a row carries the module and qualified name of the traced function object itself
 R-C08.9  every generic form built by the inference functions is a form of the decided universe (no PEP 585 aliases)
 R-C08.8  a recorded class that is no longer found under its name never decodes to a different, similarly named class
 """
@@ -203,7 +204,7 @@ def rule_trace_round_trip(ctx: Ctx, repo: Repo) -> None:
     pgw = CM.func("pkg.mod", "User.area")
     world.add("pkg.mod", "User.area", CM.prop(R("func", __module__=K("pkg.mod"), __qualname__=K("User.area"), __name__=K("area"), __wrapped__=pgw)))
     funcs += [wrapped, cm, pg, pgw]
-    opts = [K(None), CM.NONE_T, CM.gen("List", CM.USER), CM.anon_td({"a": CM.INT})]
+    opts = [K(None), CM.NONE_T, CM.gen("List", CM.USER), CM.anon_td({"a": CM.INT}), CM.REGISTRY]  # REGISTRY: a class that is false as a truth value
     n = 0
     for f in funcs:
         for rt in opts:
@@ -354,6 +355,31 @@ def rule_dumps(ctx: Ctx, repo: Repo) -> None:
     ctx.floor("R-C08.4", "json.dumps calls in encoding.py", n, 2)
 
 
+def rule_row_names(ctx: Ctx, repo: Repo, rule: str = "R-C08.10") -> None:
+    """The row is filed under the module and qualified name of the traced function object ITSELF - the object whose
+    __module__ the store logger's __main__ test read and whose code the filter admitted - not of something reachable from it
+    (what a wrapper's __wrapped__ points at, the class of a bound method, ...)."""
+    ft = repo.fn(ENC, "CallTraceRow.from_trace")
+    ctx.functions.add(ft.fq)
+    plain = CM.func("pkg.mod", "helper")
+    inner_main = R("func", __module__=K("__main__"), __qualname__=K("job"), __name__=K("job"))
+    wrapper = R("func", __module__=K("lib.deco"), __qualname__=K("retry.<locals>.wrapper"), __name__=K("wrapper"), __wrapped__=inner_main)
+    renamed = R("func", __module__=K("pkg.mod"), __qualname__=K("public_name"), __name__=K("public_name"),
+                __wrapped__=R("func", __module__=K("pkg.impl"), __qualname__=K("_private_impl"), __name__=K("_private_impl")))
+    n = 0
+    for what, f in (("a plain function", plain), ("a wrapper of another module that keeps its own identity and points at a __main__ function through __wrapped__", wrapper),
+                    ("a wrapper whose __wrapped__ target has another name", renamed)):
+        tr = R("trace", func=f, arg_types=R("dict", items=((K("a"), CM.INT),)), return_type=CM.NONE_T, yield_type=K(None))
+        k, row = CodecScenario(repo, ENC, "CallTraceRow.from_trace", World()).result(
+            {ft.positional_params()[0]: S("class:monkeytype.encoding.CallTraceRow"), ft.positional_params()[1]: tr})
+        n += 1
+        ok = k == "return" and isinstance(row, R) and row.kind == "obj" and row.fields.get("module") == f.fields["__module__"] and row.fields.get("qualname") == f.fields["__qualname__"]
+        ctx.check(ok, rule, ft.fq, "a trace is stored under the module and qualified name of the traced function object itself",
+                  construct=f"{what}: stored as ({row.fields.get('module') if isinstance(row, R) else k}, {row.fields.get('qualname') if isinstance(row, R) else row}), the function is "
+                            f"({f.fields['__module__'].v}, {f.fields['__qualname__'].v})")
+    ctx.floor(rule, "traced-function shapes encoded", n, 3)
+
+
 def rule_no_impostor(ctx: Ctx, repo: Repo, rule: str = "R-C08.8") -> None:
     """A recorded class that cannot be found again under its recorded name (a class defined inside a function, a class that
     has since been removed or renamed) either fails to decode with a MonkeyType error - the trace is then skipped and counted -
@@ -472,4 +498,5 @@ def run(ctx: Ctx, repo: Repo, tier: str) -> None:
     ctx.attempt(rule_dumps, ctx, repo)
     ctx.attempt(rule_no_impostor, ctx, repo)
     ctx.attempt(rule_producer_forms, ctx, repo)
+    ctx.attempt(rule_row_names, ctx, repo)
     ctx.settle()
